@@ -1,6 +1,7 @@
 import Cvise.Proofs.DriverStats
 import Cvise.Proofs.DriverWorked
 import Cvise.Proofs.DriverExecuted
+import Cvise.Proofs.DriverGate
 import Cvise.Proofs.Timing
 import Cvise.Gen.World
 /-!
@@ -65,5 +66,20 @@ example : Tm.Ordered 0 [(1, 4), (4, 9)] 12 := by simp [Tm.Ordered]
 example : EInv ({ disk := [0] } : St Nat) := fun _ => rfl
 example : StatOK ({ disk := [0] } : St Nat) := fun _ => Nat.le_refl _
 example : WInv ({ disk := [0] } : St Nat) := fun _ => rfl
+
+/-- the three statistics statements for reductions started with `--start-with-pass` / `skip_initial` / missing
+    prerequisites (`D.reduceG`): a skipped pass touches no counter and no log entry -/
+theorem gated_statistics (cfg : Cfg) (W : World C) (dn : Sched) (orderOf : List C → List Nat) (fuel : Nat)
+    (avail : PassI C σ → Bool) (skip : Bool) (first main last : List (PassI C σ)) (x : St C) (sw : Option Nat)
+    (hs : StatOK x) (hw : WInv x) (he : EInv x) (p : Nat) :
+    let y := LRes.st' (reduceG cfg W dn orderOf fuel avail skip first main last x sw).1
+    y.side.failed p ≤ y.side.executed p ∧ y.side.worked p = acceptedOf p y.side.log ∧ y.side.executed p = startedOf p y.side.log := by
+  refine ⟨?_, ?_, ?_⟩
+  · exact reduceG_lift cfg W dn orderOf fuel avail (fun r => StatOK (LRes.st' r))
+      (fun P order fuel rid y h => runPass_stat cfg W dn P order fuel rid y h) skip first main last x sw hs p
+  · exact reduceG_lift cfg W dn orderOf fuel avail (fun r => WInv (LRes.st' r))
+      (fun P order fuel rid y h => runPass_worked cfg W dn P order fuel rid y h) skip first main last x sw hw p
+  · exact reduceG_lift cfg W dn orderOf fuel avail (fun r => EInv (LRes.st' r))
+      (fun P order fuel rid y h => runPass_executed cfg W dn P order fuel rid y h) skip first main last x sw he p
 
 end Cvise.C20
